@@ -103,7 +103,7 @@ def gen_sdl(seed, idx):
     out.append("directive @flag on FIELD_DEFINITION | OBJECT")
     if r.random() < 0.5:
         # legal: directives and types live in different namespaces
-        out.append("directive @Date(fmt: String) on FIELD_DEFINITION")
+        out.append("directive @Color(fmt: String) on FIELD_DEFINITION")
     if renamed or crossed or r.random() < 0.2:
         sd = "schema%s { query: %s%s }" % (
             _dirs(r, "SCHEMA"), qname,
